@@ -79,6 +79,32 @@ Theorem C18_step_out_returns : forall (B : list nat) (pol : policy) (saved n : n
   = ev :: run_dbg B pol (after_cmd (pol n ev) ev) (S n) rest.
 Proof. exact step_out_returns. Qed.
 
+(* ---- mixed command scripts (Continue / Into / Over / Out in any order).  Semantics of the decision function:
+   every stop - whatever caused it - consumes the pending step request; the step state after the stop is the one installed by
+   the command given at that stop (Continue: none). *)
+Theorem C18_stop_clears_step : forall (B : list nat) (pol : policy) (s : step_state) (n : nat) (acc : list event) (ev : event),
+  should_stop B s ev = true ->
+  dbg_hook B pol (s, n, acc) ev = (after_cmd (pol n ev) ev, S n, ev :: acc).
+Proof. exact stop_clears_step. Qed.
+
+Theorem C18_continue_clears_step : forall (B : list nat) (pol : policy) (s : step_state) (n : nat) (acc : list event) (ev : event),
+  should_stop B s ev = true -> pol n ev = Continue ->
+  dbg_hook B pol (s, n, acc) ev = (None, S n, ev :: acc).
+Proof. exact continue_clears_step. Qed.
+
+(* the future after a stop does not depend on the step request that was outstanding when the stop happened *)
+Theorem C18_stop_forgets_pending_step : forall (B : list nat) (pol : policy) (s s' : step_state) (n : nat) (ev : event) (rest : list event),
+  should_stop B s ev = true -> should_stop B s' ev = true ->
+  run_dbg B pol s n (ev :: rest) = run_dbg B pol s' n (ev :: rest).
+Proof. exact stop_forgets_pending_step. Qed.
+
+(* Continue at any stop and afterwards: only breakpoint lines stop the program from then on, once per start event *)
+Theorem C18_continue_runs_to_breakpoints : forall (B : list nat) (pol : policy) (s : step_state) (n : nat) (ev : event) (rest : list event),
+  should_stop B s ev = true ->
+  (forall m e, n <= m -> pol m e = Continue) ->
+  run_dbg B pol s n (ev :: rest) = ev :: filter (fun e => mem (ev_line e) B) rest.
+Proof. exact continue_runs_to_breakpoints. Qed.
+
 (* ---- the hypotheses are satisfiable on a program with a loop and a call *)
 Example C18_example_trace : trace 50 ex_prog = ex_trace.
 Proof. vm_compute. reflexivity. Qed.
@@ -113,3 +139,12 @@ Example C18_example_debugger_attached :
   /\ dbg_stops (hstate_of (exec_hooked (dbg_hook [3; 10] (always Continue)) dbg_init 50 ex_prog))
      = [(3,1); (3,1); (10,0); (3,1); (10,0)].
 Proof. vm_compute. split; reflexivity. Qed.
+
+(* mixed script: stop at `b = g()` (line 5), step Over; the breakpoint inside the callee (line 2) stops the program while
+   the Over request is outstanding; Continue there: no further stop (line 6 has no breakpoint) *)
+Example C18_example_mixed_script :
+  stops [5; 2] (script [Step Over; Continue]) ex_nested_trace = [(5,1); (2,2)]
+  /\ stops [5; 2] (script [Step Over; Step Over; Continue]) ex_nested_trace = [(5,1); (2,2); (3,2)]
+  /\ stops [5; 2] (script [Step Out; Continue]) ex_nested_trace = [(5,1); (2,2)]
+  /\ stops [5] (script [Step Over; Continue]) ex_nested_trace = [(5,1); (6,1)].
+Proof. vm_compute. repeat split; reflexivity. Qed.
